@@ -190,8 +190,21 @@ func vhReduceStepsMetadata(layout Layout, md map[string]map[string]Metadata) (ma
 	if vhFail("reduce") {
 		return nil, errors.New("vh: reduce")
 	}
-	vhReduced = map[string]Metadata{"reduced": &vhMeta{tag: "reduced-link"}}
+	vhReducedLink = &vhMeta{tag: "reduced-link"}
+	vhReduced = map[string]Metadata{"reduced": vhReducedLink}
 	return vhReduced, nil
+}
+
+var vhReducedLink *vhMeta // the agreed link the reduce stage returned for the step
+var vhInspCollides bool   // the inspection carries the step's name (its link is filed under the same key)
+
+func vhSeenEvent(name string) bool {
+	for _, e := range vhEvents {
+		if e == name {
+			return true
+		}
+	}
+	return false
 }
 
 func vhVerifyArtifacts(items []interface{}, md map[string]Metadata) error {
@@ -199,11 +212,10 @@ func vhVerifyArtifacts(items []interface{}, md map[string]Metadata) error {
 		return VerifyArtifacts(items, md)
 	}
 	_, hasReduced := md["reduced"]
-	_, hasInsp := md["inspection-link"]
-	if !hasInsp {
+	if !vhSeenEvent("rules-steps") {
 		vhEvent("rules-steps")
 		// the steps of the verified layout, against the reduced links only
-		ok := len(items) == 1 && hasReduced && len(md) == 1
+		ok := len(items) == 1 && md["reduced"] == Metadata(vhReducedLink) && vhReducedLink != nil && len(md) == 1
 		if ok {
 			st, isStep := items[0].(Step)
 			ok = isStep && st.Name == "the-step" && vhStepContentOK(st)
@@ -215,7 +227,8 @@ func vhVerifyArtifacts(items []interface{}, md map[string]Metadata) error {
 		return nil
 	}
 	vhEvent("rules-inspections")
-	ok := len(items) == 1 && hasReduced && len(md) == 2
+	// the inspection links together with the reduced step links (one key when the names collide)
+	ok := len(items) == 1 && hasReduced && (len(md) == 2 || (vhInspCollides && len(md) == 1))
 	if ok {
 		ins, isIns := items[0].(Inspection)
 		ok = isIns && ins.Name == "the-inspection"
@@ -240,6 +253,12 @@ func vhRunInspections(layout Layout, runDir string, lineNorm bool, useDSSE bool)
 	if vhFail("inspections") {
 		return nil, errors.New("vh: inspection failed")
 	}
+	// an inspection may carry the name of a step (nothing on the verification path forbids it): its link is
+	// then filed under the step's key
+	vhInspCollides = vBool("inspection-named-like-the-step")
+	if vhInspCollides {
+		return map[string]Metadata{"reduced": &vhMeta{tag: "inspection-link"}}, nil
+	}
 	return map[string]Metadata{"inspection-link": &vhMeta{tag: "inspection-link"}}, nil
 }
 
@@ -251,7 +270,8 @@ func vhGetSummaryLink(layout Layout, reduced map[string]Metadata, stepName strin
 		return GetSummaryLink(layout, reduced, stepName, useDSSE)
 	}
 	vhEvent("summary")
-	_, hasReduced := reduced["reduced"]
+	// the summary is computed from exactly the agreed links of the steps
+	hasReduced := reduced["reduced"] == Metadata(vhReducedLink) && vhReducedLink != nil && len(reduced) == 1
 	vhProv(layout.Readme == vhLayoutTag && vhLayoutContentOK(layout) && hasReduced && stepName == vhStepNameArg && useDSSE == vhUseDSSEArg)
 	if vhFail("summary") {
 		return nil, errors.New("vh: summary")
@@ -341,7 +361,7 @@ func vh_C01_wiring_twin(a []int) { vhC01(a, true) }
 
 func vhWiringRun(a []int) (stages []string, res Metadata, err error, sigOK bool) {
 	entry, nkeys, nsigs := a[0], a[1], a[2]
-	vhEvents, vhProvenanceOK, vhProvFailedAt, vhFailedStages = nil, true, "", nil
+	vhEvents, vhProvenanceOK, vhProvFailedAt, vhFailedStages, vhReducedLink, vhInspCollides = nil, true, "", nil, nil, false
 	layout := Layout{Type: "layout", Readme: vhLayoutTag,
 		Steps:   []Step{{Type: "step", SupplyChainItem: SupplyChainItem{Name: "the-step"}}},
 		Inspect: []Inspection{{Type: "inspection", SupplyChainItem: SupplyChainItem{Name: "the-inspection"}}}}
@@ -464,7 +484,7 @@ func vh_C01_reverify(a []int) {
 	vhStepNameArg = ""
 	vhUseDSSEArg, vhLineNormArg = wrapper == 2, true
 	for r := 0; r < rounds; r++ {
-		vhEvents, vhProvenanceOK, vhProvFailedAt = nil, true, ""
+		vhEvents, vhProvenanceOK, vhProvFailedAt, vhReducedLink, vhInspCollides = nil, true, "", nil, false
 		params := map[string]string{}
 		vhExpectParam = "{P}"
 		if v := vChoice("param", 3); v > 0 {
